@@ -222,3 +222,116 @@ class ReachingDefs:
                 if k == key:
                     out.append((d, v, how))
         return out
+
+
+# ------------------------------------------------------------- expression expansion
+class _Subst(ast.NodeTransformer):
+    def __init__(self, m):
+        self.m = m
+
+    def visit_Name(self, node):
+        if isinstance(node.ctx, ast.Load) and node.id in self.m:
+            import copy as _c
+            return _c.deepcopy(self.m[node.id])
+        return node
+
+
+class Expander:
+    """Rewrites an expression so that local temporaries are replaced by their defining expressions
+    and calls of small straight-line package helpers by their (argument-substituted) return
+    expression.  A name is only replaced when exactly one plain binding reaches the use and every
+    name occurring in that binding has the same reaching definitions at the binding and at the use
+    (so the value is the same).  Used by the shape rules so that `t = e; f(t)` and `f(e)` look alike."""
+
+    def __init__(self, ctx, f, depth: int = 8, only=None):
+        """only: optional predicate on the defining expression; names whose definition does not
+        satisfy it are left alone (e.g. inline masks and selections but not whole computations)"""
+        self.ctx, self.f, self.depth, self.only = ctx, f, depth, only
+        self.cfg = ctx.cfg(f)
+        self.rd = ctx.rd(f)
+
+    def expand_at(self, site: ast.AST, e: ast.expr) -> ast.expr:
+        try:
+            n = self.cfg.node_of(site)
+        except Exception:
+            return e
+        return self.expand(n, e, self.depth)
+
+    def expand(self, n: Node, e: ast.expr, depth: int) -> ast.expr:
+        import copy as _c
+        if depth <= 0:
+            return e
+        exp = self
+
+        class T(ast.NodeTransformer):
+            def visit_Name(self, node):
+                if not isinstance(node.ctx, ast.Load):
+                    return node
+                vals = exp.rd.value_exprs(n, node.id)
+                if len(vals) != 1:
+                    return node
+                d, v, how = vals[0]
+                if how != "bind" or v is None or isinstance(v, (ast.Tuple, ast.List)):
+                    return node
+                if exp.only is not None and not exp.only(v):
+                    return node
+                # the statement must bind this name alone (not a tuple unpacking of a call)
+                s = d.ast
+                tg = s.targets[0] if isinstance(s, ast.Assign) and len(s.targets) == 1 else getattr(s, "target", None)
+                if not isinstance(tg, ast.Name) or tg.id != node.id:
+                    return node
+                for sub in ast.walk(v):
+                    if isinstance(sub, ast.Name) and isinstance(sub.ctx, ast.Load) and sub.id != node.id:
+                        if exp.rd.defs_at(d, sub.id) != exp.rd.defs_at(n, sub.id):
+                            return node
+                    if isinstance(sub, ast.Name) and sub.id == node.id:
+                        return node
+                return exp.expand(d, _c.deepcopy(v), depth - 1)
+
+            def visit_Call(self, node):
+                node = self.generic_visit(node)
+                r = exp._inline_call(node, depth)
+                return r if r is not None else node
+        return T().visit(_c.deepcopy(e))
+
+    def _inline_call(self, c: ast.Call, depth: int) -> Optional[ast.expr]:
+        from .core import bind_args, AnalysisError, dotted
+        if depth <= 0 or not isinstance(c.func, ast.Name):
+            return None
+        repo = self.ctx.repo
+        q = repo.resolve_callee(self.f, c)
+        g = repo.funcs.get(q) if q else None
+        if g is None or g.cls is not None:
+            return None
+        body = [s for s in g.node.body if not (isinstance(s, ast.Expr) and isinstance(s.value, ast.Constant))]
+        if not body or not isinstance(body[-1], ast.Return) or body[-1].value is None:
+            return None
+        if not all(isinstance(s, (ast.Assign, ast.AnnAssign)) for s in body[:-1]) or len(body) > 6:
+            return None
+        if any(isinstance(s, ast.Assign) and not isinstance(s.targets[0], ast.Name) for s in body[:-1]):
+            return None
+        try:
+            b = bind_args(c, g.node)
+        except AnalysisError:
+            return None
+        if set(b) != set(g.params) - set(g.defaults()) and not set(g.params) - set(g.defaults()) <= set(b):
+            return None
+        ge = Expander(self.ctx, g, depth - 1)
+        ret = ge.expand_at(body[-1], body[-1].value)
+        m = dict(b)
+        for p, dflt in g.defaults().items():
+            m.setdefault(p, dflt)
+        return _Subst(m).visit(ret)
+
+
+def selection_like(v: ast.expr) -> bool:
+    """masks, selections and aliases: d != 0, d[mask], a & b, ~m, other_name"""
+    if isinstance(v, (ast.Subscript, ast.Compare, ast.Name)):
+        return True
+    if isinstance(v, ast.BinOp) and isinstance(v.op, (ast.BitAnd, ast.BitOr)):
+        return True
+    if isinstance(v, ast.UnaryOp) and isinstance(v.op, ast.Invert):
+        return True
+    if isinstance(v, ast.Attribute):
+        return True
+    return False
